@@ -20,7 +20,8 @@ REQUIRED_THEOREMS = [
         "eq_refl", "eq_symm", "eq_trans", "eq_iff", "differing_attr_noticed", "compare_false_ignored",
         "deepcopy_eq", "reconstruct_eq", "repr_total", "repr_lists_exactly",
         "construct_eq_spec", "construct_shows_passed", "construct_shows_default", "construct_passed_equal",
-        "reconstruct_refines",
+        "reconstruct_refines", "construct_shows_getter",
+        "deepcopy_stored_eq", "stored_value_survives_copy", "pyEqC_closed", "selfref_unequal",
     )
 ]
 RULE = (
@@ -28,16 +29,24 @@ RULE = (
     "int/str/float/Optional/Union/Literal/List/Dict/Set of scalars/nested Child/List,Dict,KeyedList,KeyedSet of Child/"
     "Any holding bound methods (own, foreign), functions, classes, modules; no default, immutable, mutable, "
     "default_factory, Attr(...), dataclasses.field; compare=False, repr=False, init=False, do_not_copy; key; preparer; "
-    "invalidated_by; cached spec_property; spec subclass T(S), plain subclass P(S), second level U(T)/Q(T), a subclass "
+    "invalidated_by; cached spec_property; attributes BACKED by a spec_property of the same name (cached / uncached, "
+    "overridable or not, getter = a constant or another int attribute of the instance, with or without invalidated_by): "
+    "not overridden, overridden through the constructor / setattr / with_<attr> (also with 0), memoised right after "
+    "construction and then out of date or invalidated because the attribute the getter reads is assigned afterwards; "
+    "spec subclass T(S), plain subclass P(S), second level U(T)/Q(T), a subclass "
     "re-declaring an attribute or re-assigning only its default; every kind with its falsy values (0, False, '', None, "
     "empty list/dict/set/KeyedList/KeyedSet) and truthy defaults; lazy/eager) "
     "rendered to source and exec'd, and a pool of instances (<= 14 quick, <= 40 thorough in the all-pairs matrix) reached "
     "through the constructor, by setattr, by with_<attr>, or a mix per attribute (+ del/re-set), including for one base "
     "state a single-position mutant for EVERY attribute position, for EVERY class of the family an all-falsy state "
     "reached through the constructor and its twin reached without it, the same "
-    "values in every class of the family, missing values, extra __dict__ entries on one side, self-referential states and "
+    "values in every class of the family, missing values, extra __dict__ entries on one side, states that hold ANOTHER "
+    "pool instance as a value (directly, in a list, in a dict), self-referential states (x.a = x, [x], {'k': x}: "
+    "compared with themselves and, both ways, with every acyclic state of the matrix) and "
     "cycles closed through bound methods of OTHER pool instances (mutual subscription, ring of three, handlers in lists; "
-    "repr only). Evaluated: ALL ordered pairs (==, !=), all triples (transitivity, on the real results), "
+    "repr and copy only). Evaluated: per state what getattr shows for its own __dict__ state and what a deep copy of it "
+    "shows (taken before anything is read); ALL ordered pairs (==, !=), all triples (transitivity, on the real results), "
+    "comparisons with history (a copy compared with its original, changed in place at one attribute, compared again), "
     "what cls(**kwargs) shows attribute by attribute for the keyword arguments of every state, "
     "deepcopy(x)==x, type(x)(**own values)==x, repr(x) / compact repr / repr of a parent holding x. Non-trivial = a pair "
     "that is equal without being the same object, or differs in a compared attribute; distinct = distinct "
@@ -45,8 +54,16 @@ RULE = (
 )
 EXHAUSTIVE = {"quick": False, "thorough": False}
 OPEN_STATEMENTS = [
-    "cyclic values are outside the equality/copy theorems (Python's == and the library's __deepcopy__ recurse on them); "
-    "repr totality on them is the absence of a failing branch in the model + the per-run check that no repr form raises",
+    "two DIFFERENT cyclic values are outside the equality theorems (Python's == recurses on them as on plain lists), and "
+    "so is deepcopy(x) == x for a cyclic x; a self-referential instance against a finite value is covered "
+    "(selfref_unequal); only direct self-references (x.a = x, [x], {'k': x}) are expressible, not longer cycles "
+    "through other instances; repr totality on cyclic values is the absence of a failing branch in the model + the "
+    "per-run check that no repr form raises",
+    "an absent __dict__ entry of a plain attribute shows the attribute's default (`dflt`); for default_factory attributes "
+    "the class itself shows MISSING — such stored states (entry deleted behind the library's back) are not generated; "
+    "a copy of a NESTED instance is modelled without looking at the nested class's do_not_copy (equality is unaffected); "
+    "a do_not_copy attribute that holds the instance itself shares it with the copy (the copy refers to the original): "
+    "not expressible with selfRef, those `dcs` lines are skipped",
     "bound methods nested inside containers are outside deepcopy_eq (Python compares them by __self__ identity)",
     "the model's input states are abstract states observed on the real instances; of the ways a state is reached only "
     "the constructor is modelled here (setattr, with_<attr>, del: C01-C09); the init-overflow attribute, __post_init__ "
@@ -59,6 +76,9 @@ ASSUMPTIONS = [
     "'compatible classes' = the same class under CPython's == dispatch (DESIGN 10.5)",
     "single inheritance inside a family: a subclass's attribute list extends its parent's (declaration order, DESIGN 10.13)",
     "attribute reads do not raise (no ill-typed spec_property getters, DESIGN 10.14); no NaN; floats are never integral",
+    "getters of property-backed attributes are deterministic functions of the instance: a constant or `self.<plain int "
+    "attribute>`; reading a cached property stores the result in __dict__ (not modelled as a step: the model is given the "
+    "__dict__ state observed before and the view observed after); a non-overridable property counts as not init-enabled",
     "re-construction is claimed for instances whose compared attributes are init-enabled with a value or still show "
     "what a fresh instance shows",
     "constructor theorems: every init-enabled attribute is owned by the class whose constructor runs or by one of its "
@@ -100,10 +120,19 @@ POOL = {
     "cb2": ("Any", [None, {"bself": "meth"}, {"bound": [0, "meth"]}, {"fn": 0}, {"mod": 0}, "a", ""], [None, "a"]),
     "p": ("str", ["a", "b", ""], ["a"]),   # has a preparer (str.lower)
     "iv": ("int", [0, 1], [0, 1]),         # invalidated_by another attribute
+    # attributes backed by a `spec_property` of the same name (annotation + decorated getter in the class body): what
+    # `getattr` shows is the entry in `__dict__` (an assigned override, or the memoised getter result) when there is one
+    # and the property honours it, else the getter's result (a constant, or another attribute of the instance)
+    "pc": ("int", [0, 1, 2, 7], []),       # spec_property(cache=True), overridable
+    "pu": ("int", [0, 1, 2, 7], []),       # spec_property (not cached), overridable
+    "pn": ("int", [], []),                 # spec_property(cache=True, overridable=False): never assigned
 }
+PROPS = {"pc": {"cache": True, "ov": True}, "pu": {"cache": False, "ov": True}, "pn": {"cache": True, "ov": False}}
+PROP_SOURCES = ("i", "iv")                 # plain int attributes a getter may return (`return self.i`)
 MUTABLE = {"li", "di", "se", "chs", "chd", "kl", "ks"}
 DNC_OK = MUTABLE | {"cb", "cb2"}
-BASE_ATTRS = ["i", "b", "s", "f", "o", "u", "lt", "li", "di", "se", "ch", "chs", "chd", "kl", "ks", "cb", "cb2", "p", "iv"]
+BASE_ATTRS = ["i", "b", "s", "f", "o", "u", "lt", "li", "di", "se", "ch", "chs", "chd", "kl", "ks", "cb", "cb2", "p", "iv",
+              "pc", "pu", "pn"]
 
 
 def setup():
@@ -157,6 +186,27 @@ def render_attr(a):
     return f"{a['name']}: {ann} = {fn}({', '.join(args + opts)})"
 
 
+def render_getter(a):
+    """The `spec_property` that backs attribute `a` (declared right after the annotation)."""
+    p = a["prop"]
+    opts = []
+    if p["cache"]:
+        opts.append("cache=True")
+    if not p["ov"]:
+        opts.append("overridable=False")
+    if p.get("inv"):
+        opts.append(f"invalidated_by=[{p['inv']!r}]")
+    kind, what = p["getter"]
+    expr = repr(what) if kind == "const" else f"self.{what}"
+    dec = "@spec_property(%s)" % ", ".join(opts) if opts else "@spec_property"
+    return f"{dec}\ndef {a['name']}(self): return {expr}"
+
+
+def passable(a):
+    """The constructor accepts (and the instance can store) a value for the attribute."""
+    return bool(a["init"]) and not (a.get("prop") and not a["prop"]["ov"])
+
+
 def render(case):
     fam = case["family"]
     out = [
@@ -178,6 +228,7 @@ def render(case):
             lines.append("@spec_class(%s)" % ", ".join(args) if args else "@spec_class")
         lines.append(f"class {c['name']}({c['base']}):" if c["base"] else f"class {c['name']}:")
         body = [render_attr(a) for a in c["attrs"]]
+        body += [render_getter(a) for a in c["attrs"] if a.get("prop")]
         # an inherited attribute's DEFAULT re-assigned in the subclass body, without annotation (spec or plain class)
         body += [f"{o['name']} = {py_value(o['default'])}" for o in c.get("overrides", [])]
         if not c["base"]:
@@ -303,22 +354,27 @@ def make_value(ns, v, holder=None):
         return holder
     if "selflist" in v:
         return [holder]
+    if "selfdict" in v:
+        return {"k": holder}
     raise ValueError(v)
 
 
 class Tokens:
     """Canonical prefix-notation tokens of real values (object identities renumbered by first appearance)."""
 
-    def __init__(self, case, ns, copies_as_c=False):
+    def __init__(self, case, ns, copies_as_c=False, known=None):
         self.case, self.ns = case, ns
         self.ids = class_ids(case)
         self.owners = {}
         self.copies_as_c = copies_as_c    # `new` lines: an owner that is not one of HELPERS is "a copy"
+        self.known = known or {}          # ... unless it is an owner the original referred to (shared, not copied)
 
     def owner_id(self, obj):
         for i, h in enumerate(self.ns["HELPERS"]):
             if obj is h:
                 return i
+        if id(obj) in self.known:
+            return self.known[id(obj)]
         if self.copies_as_c:
             return "c"
         return self.owners.setdefault(id(obj), 100 + len(self.owners))
@@ -379,6 +435,18 @@ class Tokens:
             out += self.val(getattr(x, a["name"], MISSING), x)
         return out
 
+    def stored(self, x):
+        """The instance's OWN state: per attribute the entry in `__dict__` (`_` = none). Reads nothing through
+        `getattr`, so no property getter runs and no cache is filled."""
+        from spec_classes import MISSING
+
+        cname = type(x).__name__
+        attrs = attrs_of(self.case, cname)
+        out = ["I", str(self.ids[cname]), str(len(attrs))]
+        for a in attrs:
+            out += self.val(x.__dict__.get(a["name"], MISSING), x)
+        return out
+
 
 def desc_tokens(case, v):
     """Tokens of a default-value descriptor (for the class table)."""
@@ -406,11 +474,16 @@ def desc_tokens(case, v):
 # ---------------------------------------------------------------------------
 
 
+# value kinds that need the finished instance (or the other instances of the pool): never keyword arguments
+LATE_KINDS = ("bself", "self", "selflist", "selfdict", "peer", "peerlist", "inst", "instlist", "instdict")
+SELF_KINDS = ("self", "selflist", "selfdict")
+
+
 def ctor_kwargs(case, st):
     """Names of the attributes of `st` that CAN go through the constructor (init-enabled, value exists up front)."""
     attrs = {a["name"]: a for a in attrs_of(case, st["cls"])}
     return [name for name, v in st["vals"].items()
-            if attrs[name]["init"] and not (isinstance(v, dict) and ("bself" in v or "self" in v or "selflist" in v))]
+            if passable(attrs[name]) and not (isinstance(v, dict) and any(k in v for k in LATE_KINDS))]
 
 
 def make_state(case, ns, st):
@@ -429,6 +502,9 @@ def make_state(case, ns, st):
         else:
             later.append((name, v, how if name in through_ctor else "set"))
     x = cls(**kwargs)
+    for op in st.get("pre", []):
+        if op[0] == "touch":      # read the attribute right after construction: a cached property memoises NOW
+            getattr(x, op[1], None)
     for name, v, how in later:
         if how == "with":
             x = getattr(x, "with_" + name)(make_value(ns, v, x))
@@ -441,13 +517,14 @@ def make_state(case, ns, st):
             except AttributeError:
                 pass
         elif op[0] == "reset":     # delete and assign again: moves the entry to the end of __dict__
-            v = x.__dict__.pop(op[1], None)
-            if v is not None:
-                x.__dict__[op[1]] = v
+            if op[1] in x.__dict__:
+                x.__dict__[op[1]] = x.__dict__.pop(op[1])
         elif op[0] == "tmp":
             x.__dict__["_tmp"] = 1
         elif op[0] == "cp":
             x.cp  # fills the cache of the spec_property in __dict__
+        elif op[0] == "touch":
+            getattr(x, op[1], None)
     return x
 
 
@@ -461,18 +538,31 @@ def build_states(case, ns):
             if _is_peer(v):
                 if "peer" in v:
                     x.__dict__[name] = getattr(insts[v["peer"][0]], v["peer"][1])
-                else:
+                elif "peerlist" in v:
                     x.__dict__[name] = [getattr(insts[i], f) for i, f in v["peerlist"]]
+                elif "inst" in v:          # another (earlier, acyclic) instance of the pool as the value itself
+                    x.__dict__[name] = insts[v["inst"]]
+                elif "instlist" in v:
+                    x.__dict__[name] = [insts[v["instlist"]]]
+                else:
+                    x.__dict__[name] = {"k": insts[v["instdict"]]}
     return insts
 
 
 def _is_peer(v):
-    return isinstance(v, dict) and ("peer" in v or "peerlist" in v)
+    return isinstance(v, dict) and any(k in v for k in ("peer", "peerlist", "inst", "instlist", "instdict"))
 
 
 def eq_states(case):
     """States that take part in the ALL-PAIRS comparison."""
-    return [i for i, st in enumerate(case["states"]) if not st.get("cyclic") and not st.get("solo")]
+    return [i for i, st in enumerate(case["states"]) if not st.get("cyclic") and not st.get("solo") and not st.get("selfcyc")]
+
+
+def selfcyc_states(case):
+    """Self-referential states (`x.a = x`, `x.a = [x]`, `x.a = {"k": x}`): compared with themselves and — both ways —
+    with every ACYCLIC state of the matrix (Python's == terminates when one operand is a finite tree); two different
+    cyclic states are outside (the comparison recurses, as it does for plain lists)."""
+    return [i for i, st in enumerate(case["states"]) if st.get("selfcyc")]
 
 
 def solo_states(case):
@@ -484,6 +574,10 @@ def solo_states(case):
 def eq_pairs(case):
     eqs = eq_states(case)
     pairs = [(i, j) for i in eqs for j in eqs]
+    for i in selfcyc_states(case):
+        pairs.append((i, i))
+        for j in eqs:
+            pairs += [(i, j), (j, i)]
     for i, st in enumerate(case["states"]):
         if st.get("twin_of") is not None:
             pairs += [(st["twin_of"], i), (i, st["twin_of"])]
@@ -514,8 +608,15 @@ def lines(case):
         spec = "1" if cname == "Child" or cdefs[cname]["spec"] else "0"
         toks = ["cls", str(ids[cname]), cname, parent, kidx, spec, str(len(attrs))]
         for a in attrs:
-            flags = "".join("1" if a[f] else "0" for f in ("compare", "repr", "init", "dnc"))
-            toks += [f"{a['name']}:{flags}:{ids[a['owner']]}"] + desc_tokens(case, fresh_view(a))
+            # (`init` for the model = accepted by the constructor AND storable: not a non-overridable property)
+            flags = "".join("1" if f else "0" for f in (a["compare"], a["repr"], passable(a), a["dnc"]))
+            spec_tok = f"{a['name']}:{flags}:{ids[a['owner']]}"
+            if a.get("prop"):
+                # property-backed: p<cache><overridable>, getter c<int> (constant) / s<index of the attribute returned>
+                g = a["prop"]["getter"]
+                gt = f"c{g[1]}" if g[0] == "const" else f"s{[x['name'] for x in attrs].index(g[1])}"
+                spec_tok += f":p{int(a['prop']['cache'])}{int(a['prop']['ov'])}:{gt}"
+            toks += [spec_tok] + desc_tokens(case, fresh_view(a))
         ml.append(" ".join(toks))
         # the real metadata must list the same attributes in the same order with the same flags and owners, and be
         # the class's own exactly when the class is a spec class
@@ -525,16 +626,6 @@ def lines(case):
         same = same and (("__spec_class__" in ns[cname].__dict__) == (spec == "1"))
         rl.append("ok" if same else "metadata-differs " + ",".join(real))
     insts = build_states(case, ns)
-    for i, x in enumerate(insts):
-        ml.append(" ".join(["st", str(i)] + tk.inst(x)))
-        # scope flags of the theorems: instances are well formed by construction; the self-referential
-        # states are the only ones outside the equality/copy theorems
-        # (a cycle closed through bound methods of peers is not visible in the abstract tree; such states are
-        # nevertheless only used for repr)
-        vals = case["states"][i]["vals"].values()
-        outside = any(isinstance(v, dict) and ("self" in v or "selflist" in v or "peerlist" in v) for v in vals)
-        rl.append(f"ok wf=1 acyclic={0 if outside else 1}")
-    eqs = eq_states(case)
     import copy
 
     def guarded(f):
@@ -545,6 +636,33 @@ def lines(case):
         except Exception as e:  # noqa: BLE001
             return f"raised {type(e).__name__}"
 
+    # the instances' OWN state (their `__dict__` entries) and what a deep copy of it shows, taken BEFORE anything is
+    # read through getattr (reading fills the caches of cached properties): the model derives what getattr shows from
+    # the stored state (`showS`: entry, else class-level default, else the property's getter) and copies entry by entry
+    before = []
+    for x in insts:
+        sto = tk.stored(x)
+        before.append((sto, guarded(lambda: " ".join(
+            Tokens(case, ns, copies_as_c=True, known=dict(tk.owners)).inst(copy.deepcopy(x))))))
+    for i, x in enumerate(insts):
+        ml.append(" ".join(["sto", str(i)] + before[i][0]))
+        rl.append(guarded(lambda: " ".join(tk.inst(x))))
+        # (a do_not_copy attribute that holds the instance itself / a container with it: the copy SHARES the value and
+        # so refers to the ORIGINAL — not expressible with `selfRef`, which denotes the enclosing instance; not modelled)
+        dnc = {a["name"] for a in attrs_of(case, case["states"][i]["cls"]) if a["dnc"]}
+        if any(n in dnc and isinstance(v, dict) and any(k in v for k in SELF_KINDS + ("peerlist",))
+               for n, v in case["states"][i]["vals"].items()):
+            continue
+        ml.append(f"dcs {i}")
+        rl.append(before[i][1])
+    for i, x in enumerate(insts):
+        ml.append(" ".join(["st", str(i)] + tk.inst(x)))
+        # scope flags of the theorems: instances are well formed by construction; the self-referential
+        # states are the only ones outside the equality/copy theorems
+        # (a cycle closed through bound methods of peers is not visible in the abstract tree; such states are
+        # nevertheless only used for repr)
+        rl.append(f"ok wf=1 acyclic={0 if outside_scope(case['states'][i]) else 1}")
+    eqs = eq_states(case)
     for i, j in eq_pairs(case):
         ml.append(f"eq {i} {j}")
         rl.append(guarded(lambda: "1" if insts[i] == insts[j] else "0"))
@@ -586,8 +704,57 @@ def lines(case):
     for i, x in enumerate(insts):
         ml.append(f"repr {i}")
         rl.append(repr_skeleton(case, x))
+    # comparisons with history (the changed copy is a state of its own for the model: its observed abstract state)
+    nxt = len(insts)
+    for b, j, aname in history_mutants(case):
+        try:
+            c = history_copy(ns, insts, case, b, j, aname)
+            toks = tk.inst(c)
+        except Exception:  # noqa: BLE001  (the oracle reports what is wrong with copying / assigning)
+            continue
+        ml.append(" ".join(["st", str(nxt)] + toks))
+        rl.append("ok wf=1 acyclic=1")
+        for l, r in ((nxt, b), (b, nxt)):
+            ml.append(f"eq {l} {r}")
+            rl.append(guarded(lambda: "1" if (c if l == nxt else insts[b]) == (insts[b] if l == nxt else c) else "0"))
+        nxt += 1
     _cache[key] = (case, (ml, rl))
     return ml, rl
+
+
+def outside_scope(st):
+    """Self-referential states and bound methods inside containers are outside the equality/copy theorems."""
+    return any(isinstance(v, dict) and any(k in v for k in SELF_KINDS + ("peerlist",)) for v in st["vals"].values())
+
+
+def history_mutants(case):
+    """(base, mutant) pairs for the comparisons with HISTORY: a copy of the base is compared with the base (equal),
+    then changed in place at one attribute into the mutant's value and compared again — an answer remembered from
+    the first comparison (per object, per pair) would be stale."""
+    eqs = set(eq_states(case))
+    out = []
+    for j, st in enumerate(case["states"]):
+        mu = st.get("mutant_of")
+        if mu is None or j not in eqs or mu[0] not in eqs or outside_scope(st) or outside_scope(case["states"][mu[0]]):
+            continue
+        v = st["vals"].get(mu[1])
+        a = next(a for a in attrs_of(case, st["cls"]) if a["name"] == mu[1])
+        if mu[1] not in st["vals"] or not passable(a) or mu[1] == key_of(case, st["cls"]):
+            continue
+        if isinstance(v, dict) and any(k in v for k in LATE_KINDS if k != "bself"):
+            continue
+        out.append((mu[0], j, mu[1]))
+    return out[:4]
+
+
+def history_copy(ns, insts, case, b, j, aname):
+    """The copy of state `b` after: compared with `b` both ways, then `aname` set in place to state j's value."""
+    import copy
+
+    c = copy.deepcopy(insts[b])
+    c == insts[b], insts[b] == c, c != insts[b]
+    setattr(c, aname, make_value(ns, case["states"][j]["vals"][aname], c))
+    return c
 
 
 def model_lines(case):
@@ -605,7 +772,7 @@ def reconstruct_real(case, ns, x):
     kwargs = {}
     for a in attrs:
         v = getattr(x, a["name"], MISSING)
-        if a["init"] and v is not MISSING:
+        if passable(a) and v is not MISSING:
             kwargs[a["name"]] = v
     try:
         y = type(x)(**kwargs)
@@ -621,7 +788,7 @@ def describe_reconstruction(case, x):
 
     try:
         kwargs = {a["name"]: getattr(x, a["name"]) for a in attrs_of(case, type(x).__name__)
-                  if a["init"] and getattr(x, a["name"], MISSING) is not MISSING}
+                  if passable(a) and getattr(x, a["name"], MISSING) is not MISSING}
         y = type(x)(**kwargs)
         diff = [f"{a['name']}: original has {getattr(x, a['name'], MISSING)!r}, new instance {getattr(y, a['name'], MISSING)!r}"
                 for a in attrs_of(case, type(x).__name__) if a["compare"] and not ref_attr_eq(case, x, y, a["name"])]
@@ -649,8 +816,10 @@ def reconstructible(case, ns, x):
         if not a["compare"]:
             continue
         v = getattr(x, a["name"], ns_missing)
-        if a["init"] and v is not ns_missing:
+        if passable(a) and v is not ns_missing:
             continue
+        if a.get("prop"):
+            return False        # (what a getter returns is not a class-level default)
         fv = fresh_view(a)
         if fv == "MISSING":
             if v is not ns_missing:
@@ -787,17 +956,41 @@ def ref_eq(case, x, y):
 
     if type(x) is not type(y):
         return False
-    for a in attrs_of(case, type(x).__name__):
-        if not a["compare"]:
-            continue
-        v, w = getattr(x, a["name"], MISSING), getattr(y, a["name"], MISSING)
-        if inspect.ismethod(v) and inspect.ismethod(w):
-            if v.__func__ is not w.__func__:
+    pair = (id(x), id(y))
+    if pair in _REF_IN_PROGRESS:
+        return True       # the same PAIR met again further down: a cycle adds no difference of its own
+    _REF_IN_PROGRESS.add(pair)
+    try:
+        for a in attrs_of(case, type(x).__name__):
+            if not a["compare"]:
+                continue
+            v, w = getattr(x, a["name"], MISSING), getattr(y, a["name"], MISSING)
+            if inspect.ismethod(v) and inspect.ismethod(w):
+                if v.__func__ is not w.__func__:
+                    return False
+                continue
+            if not ref_val_eq(case, v, w):
                 return False
-            continue
-        if not ref_val_eq(case, v, w):
-            return False
-    return True
+        return True
+    finally:
+        _REF_IN_PROGRESS.discard(pair)
+
+
+_REF_IN_PROGRESS = set()
+
+
+def show_state(case, i):
+    """The failing input in words: class, values and history of a pool state."""
+    st = case["states"][i]
+    hist = {k: st[k] for k in ("via", "pre", "ops") if st.get(k)}
+    return (f"[state {i}: {st['cls']} {st['vals']}" + (f" reached {hist}" if hist else "") + "]")[:400]
+
+
+def copy_diff(case, x, c):
+    from spec_classes import MISSING
+
+    return "; ".join(f"{a['name']}: original shows {getattr(x, a['name'], MISSING)!r}, copy {getattr(c, a['name'], MISSING)!r}"
+                     for a in attrs_of(case, type(x).__name__) if not ref_attr_eq(case, c, x, a["name"]))[:300]
 
 
 def oracle(case):
@@ -823,7 +1016,8 @@ def oracle(case):
             viol.append(f"(x != y) is not the negation of (x == y) for states {i},{j}")
         exp = ref_eq(case, insts[i], insts[j])
         if r != exp:
-            viol.append(f"state {i} == state {j} is {r}, attribute-wise reference comparison says {exp}")
+            viol.append(f"state {i} == state {j} is {r}, attribute-wise reference comparison says {exp} "
+                        + show_state(case, i) + " " + show_state(case, j))
         if res.get((j, i), r) != r:
             viol.append(f"not symmetric: states {i},{j}")
     for i in eqs:
@@ -838,6 +1032,41 @@ def oracle(case):
                 for k in eqs:
                     if res[j, k] and not res[i, k]:
                         viol.append(f"not transitive: states {i},{j},{k}")
+    # two DIFFERENT self-referential states: Python's == may recurse without end (as for plain lists; outside the
+    # property as read here) — but an answer, when there is one, must be the right one
+    cyc = selfcyc_states(case)
+    for i in cyc:
+        for j in cyc:
+            if i != j:
+                try:
+                    r = insts[i] == insts[j]
+                except RecursionError:
+                    continue
+                except Exception as e:  # noqa: BLE001
+                    viol.append(f"state {i} == state {j} raised {type(e).__name__}")
+                    continue
+                if r != ref_eq(case, insts[i], insts[j]):
+                    viol.append(f"self-referential state {i} == self-referential state {j} is {r}, attribute-wise "
+                                f"reference comparison says {not r}")
+        try:
+            c = copy.deepcopy(insts[i])
+            if type(c) is not type(insts[i]) or c is insts[i]:
+                viol.append(f"deepcopy(self-referential state {i}) is not a new instance of its class")
+        except Exception as e:  # noqa: BLE001
+            viol.append(f"deepcopy(self-referential state {i}) raised {type(e).__name__}")
+    # comparisons with history: a copy compared with its original, changed in place, compared again
+    for b, j, aname in history_mutants(case):
+        try:
+            c = history_copy(ns, insts, case, b, j, aname)
+            for x, y, what in ((c, insts[b], "changed copy == original"), (insts[b], c, "original == changed copy")):
+                r, exp = (x == y), ref_eq(case, x, y)
+                if r != exp:
+                    viol.append(f"state {b}: after comparing a copy with it and then setting the copy's {aname} to "
+                                f"{getattr(c, aname, None)!r}: {what} is {r}, attribute-wise reference comparison says {exp}")
+                if (x != y) == r:
+                    viol.append(f"state {b}: != is not the negation of == after an in-place change of {aname}")
+        except Exception as e:  # noqa: BLE001
+            viol.append(f"copying state {b} / setting {aname} on the copy raised {type(e).__name__}")
     # single-position mutants
     for j, st in enumerate(case["states"]):
         mu = st.get("mutant_of")
@@ -857,9 +1086,9 @@ def oracle(case):
         try:
             c = copy.deepcopy(insts[i])
             if not (c == insts[i]):
-                viol.append(f"deepcopy(state {i}) != state {i}")
+                viol.append(f"deepcopy(state {i}) != state {i} {show_state(case, i)} {copy_diff(case, insts[i], c)}")
             if not ref_eq(case, c, insts[i]):
-                viol.append(f"deepcopy(state {i}) differs from state {i} attribute-wise")
+                viol.append(f"deepcopy(state {i}) differs from state {i} attribute-wise: {copy_diff(case, insts[i], c)}")
         except Exception as e:  # noqa: BLE001
             viol.append(f"deepcopy(state {i}) raised {type(e).__name__}")
         ok, same = reconstruct_real(case, ns, insts[i])
@@ -905,6 +1134,10 @@ def oracle(case):
 
 def gen_attr(rng, name, *, allow_missing=True):
     ann, vals, dflts = POOL[name]
+    if name in PROPS:
+        # (flags cannot be given for an attribute whose class-level value is the property; the getter is chosen by
+        # `finish_props` once the attributes visible in the class are known)
+        return {"name": name, "compare": True, "repr": True, "init": True, "kind": "none", "prop": dict(PROPS[name])}
     a = {"name": name, "compare": rng.random() > 0.2, "repr": rng.random() > 0.2, "init": True, "kind": "none"}
     r = rng.random()
     if name in ("ch",):
@@ -932,6 +1165,16 @@ def gen_family(rng):
     names = rng.sample(BASE_ATTRS, rng.randint(3, 8))
     if rng.random() < 0.7 and "cb" not in names:
         names[rng.randrange(len(names))] = "cb"
+    # property-backed attributes: in every second family at least one, and then mostly with a plain int attribute
+    # next to it for the getter to return (derived value: stale / invalidated memo when that attribute changes)
+    if not any(n in PROPS for n in names) and rng.random() < 0.4:
+        names[rng.choice([k for k, n in enumerate(names) if n != "cb"] or [0])] = rng.choice(list(PROPS))
+    if any(n in PROPS for n in names) and not any(n in PROP_SOURCES for n in names) and rng.random() < 0.75:
+        free = [k for k, n in enumerate(names) if n != "cb" and n not in PROPS]
+        if free:
+            names[rng.choice(free)] = "i"
+        elif len(names) < 8:
+            names.append("i")
     rng.shuffle(names)
     n_sub = rng.randint(0, 2)
     sub_names, base_names = names[len(names) - n_sub:] if n_sub else [], names[: len(names) - n_sub] if n_sub else names
@@ -940,7 +1183,7 @@ def gen_family(rng):
     S = {"name": "S", "base": None, "spec": True, "eager": rng.random() < 0.3, "attrs": [gen_attr(rng, n) for n in base_names]}
     for a in S["attrs"]:
         if a["name"] == "iv":
-            others = [x["name"] for x in S["attrs"] if x["name"] != "iv"]
+            others = [x["name"] for x in S["attrs"] if x["name"] != "iv" and not x.get("prop")]
             if others:
                 a["inv"] = rng.choice(others)
             else:
@@ -957,7 +1200,7 @@ def gen_family(rng):
     T = {"name": "T", "base": "S", "spec": True, "eager": rng.random() < 0.3, "attrs": [gen_attr(rng, n) for n in sub_names]}
     for a in T["attrs"]:
         if a["name"] == "iv":
-            a["inv"] = rng.choice([x["name"] for x in S["attrs"]])
+            a["inv"] = rng.choice([x["name"] for x in S["attrs"] if not x.get("prop")] or ["iv_none"])
             if a["kind"] == "none":
                 a.update(kind="lit", default=0, factory=False)
     tdnc = [a["name"] for a in S["attrs"] + T["attrs"] if a["name"] in DNC_OK and rng.random() < 0.2]
@@ -966,7 +1209,7 @@ def gen_family(rng):
     if rng.random() < 0.3 and S["attrs"]:
         # re-declare an inherited attribute with other flags (keeps its position)
         b = rng.choice(S["attrs"])
-        if b["name"] != "iv" and b["name"] != S.get("key"):
+        if b["name"] != "iv" and b["name"] != S.get("key") and not b.get("prop"):
             T["attrs"].append(gen_attr(rng, b["name"], allow_missing=b["kind"] == "none"))
     classes.append(T)
     classes.append({"name": "P", "base": "S", "spec": False, "attrs": []})
@@ -978,7 +1221,7 @@ def gen_family(rng):
              "attrs": [gen_attr(rng, n) for n in rng.sample(extra, min(len(extra), rng.randint(0, 2)))]}
         for a in U["attrs"]:
             if a["name"] == "iv":
-                a["inv"] = rng.choice([x["name"] for x in S["attrs"]])
+                a["inv"] = rng.choice([x["name"] for x in S["attrs"] if not x.get("prop")] or ["iv_none"])
                 if a["kind"] == "none":
                     a.update(kind="lit", default=0, factory=False)
         udnc = [a["name"] for a in S["attrs"] + T["attrs"] + U["attrs"] if a["name"] in DNC_OK and rng.random() < 0.2]
@@ -987,7 +1230,8 @@ def gen_family(rng):
         if rng.random() < 0.25 and (S["attrs"] or T["attrs"]):
             # third level re-declares an attribute of the first or second level
             b = rng.choice(S["attrs"] + T["attrs"])
-            if b["name"] != "iv" and b["name"] != S.get("key") and all(a["name"] != b["name"] for a in U["attrs"]):
+            if (b["name"] != "iv" and b["name"] != S.get("key") and not b.get("prop")
+                    and all(a["name"] != b["name"] for a in U["attrs"])):
                 U["attrs"].append(gen_attr(rng, b["name"], allow_missing=b["kind"] == "none"))
         classes.append(U)
     # a subclass (spec or plain, first, second or third level) re-assigns the DEFAULT of an inherited attribute in
@@ -996,6 +1240,18 @@ def gen_family(rng):
         if rng.random() < 0.3:
             declared = {a["name"] for a in c["attrs"]}
             fam = {"classes": classes}
+            # (not an attribute that a class BELOW re-declares: a re-declaration without default would still show
+            # this class-level value through plain attribute lookup)
+            by_name = {d["name"]: d for d in classes}
+
+            def below(d):
+                while d is not None and d["base"]:
+                    if d["base"] == c["name"]:
+                        return True
+                    d = by_name.get(d["base"])
+                return False
+
+            declared |= {a["name"] for d in classes if below(d) for a in d["attrs"]}
             cands = [a for a in attrs_of({"family": fam}, c["base"])
                      if a["name"] not in declared and a["name"] not in ("iv",) and a["name"] != S.get("key")
                      and len(POOL[a["name"]][2]) > 1]
@@ -1004,13 +1260,43 @@ def gen_family(rng):
                 others = [d for d in POOL[b["name"]][2] if d != b.get("default", "NODEFAULT") or b.get("factory")]
                 if others:
                     c["overrides"] = [{"name": b["name"], "default": rng.choice(others)}]
+    finish_props(rng, classes)
     return {"classes": classes}
+
+
+def _bare(a):
+    """Rendered as a bare annotation `name: type` (no class-level value at all)."""
+    return a["kind"] == "none" and a["compare"] and a["repr"] and a["init"] and a["name"] != "iv"
+
+
+def finish_props(rng, classes):
+    """Getter of every property-backed attribute: a constant, or — when the class sees a plain int attribute —
+    `return self.<that attribute>` (then, for a cached property, possibly `invalidated_by` it)."""
+    for c in classes:
+        for a in c["attrs"]:
+            if not a.get("prop") or "getter" in a["prop"]:
+                continue
+            # (an attribute that shows nothing on a fresh instance only when it is a bare annotation: declared through
+            # `Attr(...)` / `field(...)` without a usable default, the class-level value is the MISSING sentinel
+            # ITSELF, which `self.<attr>` hands to the getter as if it were a value)
+            visible = [x["name"] for x in attrs_of({"family": {"classes": classes}}, c["name"])
+                       if x["name"] in PROP_SOURCES and not x.get("prop")
+                       and (fresh_view(x) != "MISSING" or _bare(x))]
+            if visible and rng.random() < 0.65:
+                src = rng.choice(visible)
+                a["prop"]["getter"] = ["same", src]
+                if rng.random() < 0.5:
+                    a["prop"]["inv"] = src
+            else:
+                a["prop"]["getter"] = ["const", rng.choice([5, 7])]
 
 
 def gen_vals(rng, case, cname, p_missing=0.25):
     vals = {}
     for a in attrs_of(case, cname):
         has_default = a["kind"] != "none"
+        if a.get("prop") and (not passable(a) or rng.random() < 0.5):
+            continue            # what the getter returns (or what was memoised)
         if not has_default and rng.random() < p_missing:
             continue            # stays missing
         if has_default and rng.random() < 0.3:
@@ -1045,10 +1331,24 @@ def gen_falsy_vals(rng, case, cname):
         pool = POOL[a["name"]][1]
         falsy = [v for v in pool if is_falsy(v)]
         differing = [v for v in falsy if v != fresh_view(a)]
-        if rng.random() < 0.1:
+        if rng.random() < 0.1 or not pool:
             continue
         vals[a["name"]] = rng.choice(differing or falsy or pool)
     return vals
+
+
+def add_touches(rng, case, st):
+    """Reads of the property-backed attributes at two points of the state's history: right after construction
+    (`pre`: a cached property memoises what its getter returns THEN; attributes set afterwards make it stale unless
+    they invalidate it) or at the end (`ops`)."""
+    for a in attrs_of(case, st["cls"]):
+        if a.get("prop"):
+            r = rng.random()
+            if r < 0.3:
+                st.setdefault("pre", []).append(["touch", a["name"]])
+            elif r < 0.5:
+                st["ops"] = st.get("ops", []) + [["touch", a["name"]]]
+    return st
 
 
 def gen_case(rng, tier):
@@ -1096,6 +1396,64 @@ def gen_case(rng, tier):
         if st is not None:
             states.append(st)
     states = states[: n_max - 2]
+    for st in states[1:]:
+        add_touches(rng, case, st)
+    # property-backed attributes: the base state with every property read right after construction and the other
+    # attributes assigned afterwards (stale or invalidated memo), and with every overridable property overridden
+    # (for the deepest class that declares or inherits such attributes and for S)
+    for pcls in dict.fromkeys(["S", next((cn for cn in reversed(cnames)
+                                           if any(a.get("prop") for a in attrs_of(case, cn))), "S")]):
+        pattrs = attrs_of(case, pcls)
+        props = [a for a in pattrs if a.get("prop")]
+        if not props:
+            continue
+        pv = {n: v for n, v in base_vals.items()}
+        # every attribute a getter returns gets a value that differs from what a fresh instance shows: a memo taken
+        # right after construction is out of date once the attribute is assigned (unless it invalidates the memo)
+        for a in props:
+            g = a["prop"]["getter"]
+            if g[0] == "same":
+                src = next(x for x in pattrs if x["name"] == g[1])
+                other = [v for v in POOL[g[1]][1] if v != fresh_view(src)]
+                pv[g[1]] = rng.choice(other)
+        touch = [["touch", a["name"]] for a in props]
+        for how in ("set", "with"):
+            states.append({"cls": pcls, "vals": {n: v for n, v in pv.items() if n not in PROPS}, "pre": touch,
+                           "via": {n: how for n in pv}})
+        ov = {a["name"]: rng.choice(POOL[a["name"]][1]) for a in props if passable(a)}
+        if ov:
+            states.append({"cls": pcls, "vals": {**pv, **ov}, "via": gen_via(rng, list(pv) + list(ov))})
+            states.append({"cls": pcls, "vals": {**pv, **ov}, "via": {n: "set" for n in list(pv) + list(ov)},
+                           "ops": touch})
+    # other instances of the pool AS VALUES (directly, in a list, in a dict) of an `Any` attribute, and the
+    # self-referential counterparts (`x.a = x`, `[x]`, `{"k": x}`): all ordered pairs of the two groups are compared
+    hcls = next((cn for cn in cnames if any(a["name"] in ("cb", "cb2") for a in attrs_of(case, cn))), None)
+    if hcls is not None:
+        anyattrs = [a["name"] for a in attrs_of(case, hcls) if a["name"] in ("cb", "cb2")]
+        below = [cn for cn in cnames if any(a["name"] == anyattrs[0] for a in attrs_of(case, cn))]
+        z = 0
+        if hcls != "S":
+            states.append({"cls": hcls, "vals": dict(base_vals)})
+            z = len(states) - 1
+        def plain_state(st):
+            # (no value that needs other instances; no foreign bound method under a do_not_copy attribute: a copy of
+            # the NESTED instance shares it, the model's copy of nested instances does not look at their class)
+            dnc = {a["name"] for a in attrs_of(case, st["cls"]) if a["dnc"]}
+            return not any(isinstance(v, dict) and (any(k in v for k in LATE_KINDS) or ("bound" in v and n in dnc))
+                           for n, v in st["vals"].items())
+
+        plain = [i for i, st in enumerate(states) if st["cls"] in below and not st.get("solo") and plain_state(st)]
+        if not plain_state(states[z]):
+            v = {n: x for n, x in base_vals.items() if not (isinstance(x, dict) and "bound" in x)}
+            states.append({"cls": hcls, "vals": v})
+            z = len(states) - 1
+            plain.append(z)
+        states.append({"cls": hcls, "vals": {**base_vals, anyattrs[0]: {"inst": z}}})
+        states.append({"cls": hcls, "vals": {**base_vals, anyattrs[-1]: {"instlist": rng.choice(plain)}}})
+        states.append({"cls": rng.choice(below), "vals": {**base_vals, anyattrs[0]: {"instdict": rng.choice(plain)}}})
+        states.append({"cls": hcls, "vals": {**base_vals, anyattrs[0]: {"self": True}}, "selfcyc": True})
+        states.append({"cls": hcls, "vals": {**base_vals, anyattrs[-1]: {"selflist": True}}, "selfcyc": True})
+        states.append({"cls": rng.choice(below), "vals": {**base_vals, anyattrs[0]: {"selfdict": True}}, "selfcyc": True})
     # for EVERY class of the family (each inheritance depth, spec and plain): all attributes at falsy values, reached
     # once through the constructor and once WITHOUT it (setattr / with_<attr>); outside the all-pairs matrix, the
     # two are compared with each other, and deepcopy / re-construction / constructor / repr are checked on both
@@ -1111,15 +1469,8 @@ def gen_case(rng, tier):
         v = gen_vals(rng, case, cn, p_missing=0.1)
         states.append({"cls": cn, "vals": v, "solo": True, "via": {n: rng.choice(["set", "with"]) for n in v}})
         states.append({"cls": cn, "vals": dict(v), "solo": True, "twin_of": len(states) - 1})
-    # self-referential states: repr only
     anyattrs = [a["name"] for a in attrs_of(case, "S") if a["name"] in ("cb", "cb2")]
     if anyattrs:
-        v = dict(base_vals)
-        v[anyattrs[0]] = {"self": True}
-        states.append({"cls": "S", "vals": v, "cyclic": True})
-        v = dict(base_vals)
-        v[anyattrs[-1]] = {"selflist": True}
-        states.append({"cls": rng.choice(cnames), "vals": v, "cyclic": True})
         # cycles closed through BOUND METHODS of other instances (repr only): mutual subscription, a ring of
         # three, handlers held in lists
         def member(cn, **extra):
@@ -1175,6 +1526,9 @@ def _refs(st):
             out.append(v["peer"][0])
         if isinstance(v, dict) and "peerlist" in v:
             out += [i for i, _ in v["peerlist"]]
+        for k in ("inst", "instlist", "instdict"):
+            if isinstance(v, dict) and k in v:
+                out.append(v[k])
     return out
 
 
@@ -1190,6 +1544,8 @@ def _remap(st, f):
             v = {"peer": [f(v["peer"][0]), v["peer"][1]]}
         elif isinstance(v, dict) and "peerlist" in v:
             v = {"peerlist": [[f(i), m] for i, m in v["peerlist"]]}
+        elif isinstance(v, dict) and any(k in v for k in ("inst", "instlist", "instdict")):
+            v = {k: f(i) for k, i in v.items()}
         vals[k] = v
     st["vals"] = vals
     return st
@@ -1227,6 +1583,10 @@ def tags(case, real):
                 if not a[f]:
                     t.append(f"flag:{f}=False")
             t.append(f"default:{a['kind']}{'-factory' if a.get('factory') else ''}")
+            if a.get("prop"):
+                pr = a["prop"]
+                t.append(f"property:cache={int(pr['cache'])}:overridable={int(pr['ov'])}:{pr['getter'][0]}"
+                         f"{':invalidated' if pr.get('inv') else ''}")
         if c.get("key"):
             t.append("feature:key")
         if c.get("dnc"):
@@ -1239,7 +1599,12 @@ def tags(case, real):
         if st.get("mutant_of") is not None:
             t.append("state:single-position-mutant")
         if st.get("cyclic"):
+            t.append("state:cycle-through-bound-methods")
+        if st.get("selfcyc"):
             t.append("state:self-referential")
+        for op in st.get("pre", []) + st.get("ops", []):
+            if op[0] == "touch":
+                t.append("state:property-read-" + ("early" if op in st.get("pre", []) else "late"))
         if st.get("twin_of") is not None:
             t.append("state:route-twin")
         if not st.get("cyclic"):
@@ -1331,11 +1696,101 @@ def extra(tier, rng):
             return "asymmetric on two different NaN objects"
 
     judge("NaN vs other values", differs)
+
+    # --- a self-referential operand against finite ones, and what a comparison that recursed leaves behind
+    def selfref_vs_finite():
+        x, z = N(a=1), N(a=2)
+        x.b = [x]
+        y = N(a=1, b=[z])
+        w = N(a=1)
+        w.c = w                      # self-reference under a compare=False attribute
+        for l, r, exp, what in ((x, y, False, "x.b=[x] == y.b=[z]"), (y, x, False, "y.b=[z] == x.b=[x]"),
+                                (x, z, False, "x == z"), (z, x, False, "z == x"), (x, x, True, "x == x"),
+                                (w, N(a=1), True, "w.c=w (compare=False) == N(a=1)"), (N(a=1), w, True, "N(a=1) == w")):
+            if (l == r) != exp:
+                return f"{what} is {not exp}"
+            if (l != r) == exp:
+                return f"{what}: != is not the negation"
+
+    judge("self-referential instance vs finite ones (in a list, under compare=False)", selfref_vs_finite)
+
+    def after_recursion():
+        x, y = N(a=1), N(a=1)
+        x.b, y.b = [x], [y]
+        try:
+            x == y                   # two different cyclic structures: may recurse without end (outside the property)
+        except RecursionError:
+            pass
+        p, q, r = N(a=1), N(a=1), N(a=2)
+        if not (p == q) or p == r or r == p or x == r or r == x or not (x == x):
+            return "comparisons give wrong answers after one that recursed"
+
+    judge("comparisons after a comparison that recursed", after_recursion)
+
+    # --- attributes stored behind properties: copies and equality go by what the attribute shows
+    from spec_classes import spec_property
+
+    @spec_class(bootstrap=True)
+    class Q:
+        base: int = 1
+        total: int
+        limit: int
+        shadow: int
+        memo: int
+
+        @spec_property(cache=True, overridable=False)
+        def memo(self):
+            return self.base + 1000
+
+        @spec_property(cache=True, invalidated_by=["base"])
+        def total(self):
+            return self.base * 10
+
+        @spec_property(cache=True)
+        def limit(self):
+            return self.base + 100
+
+        @property
+        def shadow(self):
+            return self.__dict__.get("_shadow", -1)
+
+        @shadow.setter
+        def shadow(self, v):
+            self.__dict__["_shadow"] = v
+
+    def same(x, y, what):
+        for a in ("base", "total", "limit", "shadow", "memo"):
+            if getattr(x, a) != getattr(y, a):
+                return f"{what}: {a} is {getattr(y, a)!r}, original has {getattr(x, a)!r}"
+        if not (x == y and y == x):
+            return f"{what}: not equal to the original"
+
+    def props_copied():
+        x = Q(base=2)
+        x.total = 99                 # override of a cached property
+        x.shadow = 7                 # stored by the setter under another name
+        x.limit, x.memo              # memos ...
+        x.__dict__["base"] = 3       # ... made stale (no invalidation declared for `limit`; `total` keeps its override)
+        for what, y in (("deepcopy", copy.deepcopy(x)), ("with_base(3)", x.with_base(3).with_total(99)),
+                        ("copy of a copy", copy.deepcopy(copy.deepcopy(x)))):
+            r = same(x, y, what) if what != "with_base(3)" else None
+            if r:
+                return r
+        y = x.with_shadow(7)
+        if y.total != 99 or y.limit != x.limit or y.shadow != 7:
+            return f"with_shadow(7) shows total={y.total}, limit={y.limit}, shadow={y.shadow}; original 99, {x.limit}, 7"
+        # (re-construction cannot restore an out-of-date memo of a property that accepts no value: on a fresh one)
+        f = Q(base=2)
+        f.total, f.shadow = 99, 7
+        z = Q(base=f.base, total=f.total, limit=f.limit, shadow=f.shadow)
+        return same(f, z, "re-constructed from own values")
+
+    judge("override / stale memo / setter-backed value survive deepcopy, with_<attr>, re-construction", props_copied)
     return {"evaluations": evaluations, "nontrivial": keys, "violations": violations, "disagreements": [], "info": {"identity_probes": evaluations}}
 
 
 MANIFEST_ENTRY = {
-    "level_text": "Lean 4 proof about an executable model of EqMethod.eq under CPython's == dispatch, DeepCopyMethod.deepcopy, the constructor InitMethod.init (parent spec-class constructors base-most first with the forwarded keyword arguments, then the own attributes; any inheritance depth, plain subclasses, per-class defaults), re-construction through it and ReprMethod.repr over finite value trees (scalars, lists, dicts, sets, nested instances, bound methods, functions, classes, modules, MISSING): == is reflexive, symmetric and transitive, holds exactly when the classes are the same and every compare-enabled attribute is equal (missing only equals missing; a pair of bound methods by function), a difference at ANY attribute position is noticed, compare=False attributes are ignored, deepcopy(x)==x, the constructor shows every passed value (whatever it is - falsy ones included - and whichever class of the chain owns the attribute) and the default otherwise, re-construction from own values gives an equal instance, repr is total and lists exactly the repr-enabled attributes in declaration order. The model is tied to /repo on every run: generated class families are exec'd, a pool of instances (incl. a single-position mutant for every attribute position, subclasses, states reached through the constructor / setattr / with_<attr>, all-falsy states of every class, extra __dict__ state, self-references) is built, and ==, deepcopy, what the constructor shows for the keyword arguments of every state, re-construction and the parsed repr of ALL pairs/states are compared with the model; the oracle checks the equivalence laws and an attribute-wise reference comparison on the real results.",
+    "level_text": "Lean 4 proof about an executable model of EqMethod.eq under CPython's == dispatch, DeepCopyMethod.deepcopy, the constructor InitMethod.init (parent spec-class constructors base-most first with the forwarded keyword arguments, then the own attributes; any inheritance depth, plain subclasses, per-class defaults), re-construction through it and ReprMethod.repr over finite value trees (scalars, lists, dicts, sets, nested instances, bound methods, functions, classes, modules, MISSING): == is reflexive, symmetric and transitive, holds exactly when the classes are the same and every compare-enabled attribute is equal (missing only equals missing; a pair of bound methods by function), a difference at ANY attribute position is noticed, compare=False attributes are ignored, deepcopy(x)==x, deepcopy of the instance's own __dict__ state shows attribute by attribute what the original shows also for attributes backed by a spec_property (an assigned override or memoised result is an entry like any other and survives the copy; otherwise the getter's result on the copy), an instance that holds itself under a compared attribute (directly or in a list/set/dict) is unequal to every finite value in either operand order and the comparison used for such pairs coincides with == on finite trees, the constructor shows every passed value (whatever it is - falsy ones included - and whichever class of the chain owns the attribute) and the default or the getter's result otherwise, re-construction from own values gives an equal instance, repr is total and lists exactly the repr-enabled attributes in declaration order. The model is tied to /repo on every run: generated class families are exec'd, a pool of instances (incl. a single-position mutant for every attribute position, subclasses, states reached through the constructor / setattr / with_<attr>, all-falsy states of every class, extra __dict__ state, overridden / memoised / out-of-date property-backed attributes, instances holding other instances, self-references) is built, and what getattr shows for the observed __dict__ state, what a deep copy shows, ==, deepcopy, what the constructor shows for the keyword arguments of every state, re-construction and the parsed repr of ALL pairs/states are compared with the model; the oracle checks the equivalence laws and an attribute-wise reference comparison on the real results.",
     "level_note": "Trusted: Lean kernel; axioms propext/Classical.choice/Quot.sound only; the hand-written model and harness; CPython's == dispatch rule and its list/dict repr recursion guard. Equality theorems are about acyclic values (cyclic ones recurse in Python as for plain lists); repr covers self-references. The model's input states are the abstract states observed on the real instances.",
     "technique": "Lean 4 structural-induction proofs over a mutual value inductive; differential correspondence on all pairs of a generated state pool; independent reference comparison + equivalence-law oracle",
 }
